@@ -1378,7 +1378,494 @@ def p_sip_ctor(key, msg):
     return None
 
 
-PROPS = {"cf_match": p_cf_match, "reserialize_stable": p_reserialize_stable, "cfmsg": p_cfmsg,
+# ---------------------------------------------------------------- entry-point audit (fourth round)
+# Entry points the rounds above did not reach (the second copy of _siphash in helper.py, murmur3 with its default
+# seed, bytes_to_bit_field, the three request messages with their default arguments, __eq__ answering False,
+# __repr__), objects that must not share state, and failing calls followed by a retry on the same objects.
+
+
+def _raises(fn, *exc):
+    try:
+        fn()
+    except exc:
+        return True
+    except Exception:  # noqa
+        return False
+    return False
+
+
+def p_helper_siphash(key, msg):
+    """helper._siphash (the copy of compactfilter._siphash that helper.py exports) is SipHash-2-4 as well; both reject
+    keys that are not 16 bytes; the Golomb parameters exported by both modules are BIP158's P = 19, M = 784931"""
+    if (helper.GOLOMB_P, helper.GOLOMB_M, compactfilter.GOLOMB_P, compactfilter.GOLOMB_M,
+            compactfilter.BASIC_FILTER_TYPE) != (P, M, P, M, 0):
+        return "GOLOMB_P / GOLOMB_M / BASIC_FILTER_TYPE are not 19 / 784931 / 0"
+    for name, fn in (("helper._siphash", helper._siphash), ("compactfilter._siphash", compactfilter._siphash)):
+        if len(key) != 16:
+            if not _raises(lambda: fn(key, msg), ValueError):
+                return f"{name} accepts a key of {len(key)} bytes"
+            continue
+        want = ref_siphash24(key, msg)
+        for form, m in (("bytes", msg), ("bytearray", bytearray(msg))):
+            got = fn(key, m)
+            if got != want:
+                return f"{name}(key, {form} of {len(msg)} bytes) = {got:#x}, SipHash-2-4 = {want:#x}"
+        if fn(key, msg) != want:
+            return f"{name}: a second call differs"
+    return None
+
+
+def p_murmur_default(data, seed):
+    """murmur3(data) uses seed 0; seed by keyword; bytes / bytearray / memoryview / list of ints give the same"""
+    w0 = ref_murmur3(data, 0)
+    if helper.murmur3(data) != w0:
+        return f"murmur3(data) with the default seed = {helper.murmur3(data):#x}, MurmurHash3_x86_32 with seed 0 = {w0:#x}"
+    w = ref_murmur3(data, seed)
+    for name, got in (("murmur3(data, seed=s)", helper.murmur3(data, seed=seed)),
+                      ("murmur3(data=d, seed=s)", helper.murmur3(data=data, seed=seed)),
+                      ("murmur3(bytearray, s)", helper.murmur3(bytearray(data), seed)),
+                      ("murmur3(memoryview, s)", helper.murmur3(memoryview(data), seed)),
+                      ("murmur3(list of ints, s)", helper.murmur3(list(data), seed))):
+        if got != w:
+            return f"{name} = {got:#x} for {len(data)} bytes, MurmurHash3_x86_32 = {w:#x}"
+    if helper.murmur3(data) != w0:
+        return "murmur3(data) after calls with another seed no longer uses seed 0"
+    return None
+
+
+def p_bit_field(bits, raw):
+    """bit_field_to_bytes / bytes_to_bit_field: bit i of the field is bit (i mod 8) of byte (i div 8), LSB first
+    (BIP37 vData); the two invert each other; arguments untouched; a field that is not whole bytes is rejected"""
+    bits = list(bits)
+    arg = list(bits)
+    if len(bits) % 8:
+        if not _raises(lambda: helper.bit_field_to_bytes(arg), RuntimeError):
+            return f"bit_field_to_bytes accepts {len(bits)} bits"
+    else:
+        got = helper.bit_field_to_bytes(arg)
+        want = bytes(sum((1 if bits[8 * i + j] else 0) << j for j in range(8)) for i in range(len(bits) // 8))
+        if got != want:
+            return "bit_field_to_bytes is not the LSB-first packing"
+        back = helper.bytes_to_bit_field(got)
+        if list(back) != [1 if b else 0 for b in bits]:
+            return "bytes_to_bit_field(bit_field_to_bytes(bits)) != bits"
+    if arg != bits:
+        return "bit_field_to_bytes modified its argument"
+    f = helper.bytes_to_bit_field(raw)
+    if list(f) != [(raw[i // 8] >> (i % 8)) & 1 for i in range(8 * len(raw))]:
+        return "bytes_to_bit_field is not the LSB-first expansion"
+    if helper.bit_field_to_bytes(f) != raw:
+        return "bit_field_to_bytes(bytes_to_bit_field(raw)) != raw"
+    g = helper.bytes_to_bit_field(raw)
+    if g is f and len(raw):
+        return "bytes_to_bit_field returned the same list object twice"
+    # a bloom filter whose bit field is loaded from vData answers as Core does
+    if raw:
+        bf = bloomfilter.BloomFilter(len(raw), 3, 5)
+        bf.bit_field = list(f)
+        v = bytearray(raw)
+        bf.add(b"abc")
+        ref_core_insert(v, 3, 5, b"abc")
+        if bf.filter_bytes() != bytes(v):
+            return "a BloomFilter restored from vData and extended differs from Core's CBloomFilter"
+    return None
+
+
+def p_getcf_msgs(ftype, height, stop):
+    """BIP157 requests: getcfilters / getcfheaders = type (1) | start height (uint32 LE) | stop hash (32, internal byte
+    order); getcfcheckpt = type | stop hash.  Default arguments: basic filter type; objects built with defaults are
+    independent; a missing stop hash is refused"""
+    C = compactfilter
+    le = struct.pack("<I", height)
+    for cls, cmd, dflt in ((C.GetCFiltersMessage, b"getcfilters", 1), (C.GetCFHeadersMessage, b"getcfheaders", 0)):
+        for name, m in (("positional", cls(ftype, height, stop)),
+                        ("keyword", cls(filter_type=ftype, start_height=height, stop_hash=stop)),
+                        ("keyword, other order", cls(stop_hash=stop, start_height=height, filter_type=ftype))):
+            if m.command != cmd or (m.filter_type, m.start_height, m.stop_hash) != (ftype, height, stop):
+                return f"{cls.__name__} ({name}): fields / command"
+            if m.serialize() != bytes([ftype]) + le + stop[::-1] or m.serialize() != bytes([ftype]) + le + stop[::-1]:
+                return f"{cls.__name__} ({name}).serialize() is not type | height LE32 | stop hash reversed"
+        d = cls(stop_hash=stop)
+        if d.filter_type != 0 or d.start_height != dflt:
+            return f"{cls.__name__}(stop_hash=..): defaults are not (basic filter, start height {dflt})"
+        if d.serialize() != b"\x00" + struct.pack("<I", dflt) + stop[::-1]:
+            return f"{cls.__name__}(stop_hash=..).serialize() with the default arguments"
+        d2 = cls(stop_hash=stop[::-1])
+        d.filter_type, d.start_height = ftype, height
+        if d2.serialize() != b"\x00" + struct.pack("<I", dflt) + stop or d.serialize() != bytes([ftype]) + le + stop[::-1]:
+            return f"two {cls.__name__} objects built with default arguments are not independent"
+        if not _raises(lambda: cls(ftype, height), RuntimeError) or not _raises(lambda: cls(), RuntimeError):
+            return f"{cls.__name__} without a stop hash is accepted"
+        if cls(stop_hash=stop).serialize() != b"\x00" + struct.pack("<I", dflt) + stop[::-1]:
+            return f"{cls.__name__}: the defaults changed after a failed construction / an edited object"
+    cls = C.GetCFCheckPointMessage
+    for m in (cls(ftype, stop), cls(filter_type=ftype, stop_hash=stop), cls(stop_hash=stop, filter_type=ftype)):
+        if m.command != b"getcfcheckpt" or (m.filter_type, m.stop_hash) != (ftype, stop):
+            return "GetCFCheckPointMessage: fields / command"
+        if m.serialize() != bytes([ftype]) + stop[::-1]:
+            return "GetCFCheckPointMessage.serialize() is not type | stop hash reversed"
+    if cls(stop_hash=stop).serialize() != b"\x00" + stop[::-1]:
+        return "GetCFCheckPointMessage(stop_hash=..) does not default to the basic filter type"
+    if not _raises(lambda: cls(ftype), RuntimeError) or not _raises(lambda: cls(), RuntimeError):
+        return "GetCFCheckPointMessage without a stop hash is accepted"
+    return None
+
+
+def p_eq_discriminates(key, key2, vals, other, bh, ftype):
+    """== on filters / cfilter messages: equal for equal content whatever the order it was given in, UNEQUAL as soon
+    as one attribute differs alone (key; one value; block hash; filter type; filter bytes); comparing changes nothing"""
+    CF = compactfilter.CompactFilter
+    vals, other = list(vals), list(other)
+    a = CF(key, list(vals))
+    want = ref_gcs_from_values(vals)
+    same = [CF(key, vals[::-1]), CF(bytes(key), tuple(sorted(vals))), CF.parse(key, want)]
+    for b in same:
+        if not (a == b) or not (b == a) or (a != b):
+            return f"two filters with the same key and values ({_shape(vals)}) compare unequal"
+    if key2 != key:
+        b = CF(key2, list(vals))
+        if a == b or b == a or not (a != b):
+            return "filters with the same values under different keys compare equal"
+    if set(other) != set(vals):
+        b = CF(key, list(other))
+        if a == b or b == a or not (a != b):
+            return (f"filters over different value sets ({_shape(vals)} / {_shape(other)}, "
+                    f"{len(set(vals) ^ set(other))} value(s) differ) compare equal")
+    if a.serialize() != want or a.f != len(vals) * M or a.key != key:
+        return "comparing filters changed one of them"
+    # cfilter messages
+    k = bh[::-1][:16]
+    fb = ref_gcs_from_values(vals)
+    fb2 = ref_gcs_from_values(other)
+    m = compactfilter.CFilterMessage(ftype, bh, fb)
+    if not (m == compactfilter.CFilterMessage(ftype, bytes(bh), bytes(fb))):
+        return "equal cfilter messages compare unequal"
+    bh2 = bh[:31] + bytes([bh[31] ^ 1])             # same SipHash key, other block
+    bh3 = bytes([bh[0] ^ 0x80]) + bh[1:]            # other key
+    for what, o in (("filter type", compactfilter.CFilterMessage(ftype ^ 1, bh, fb)),
+                    ("block hash (same filter key)", compactfilter.CFilterMessage(ftype, bh2, fb)),
+                    ("block hash", compactfilter.CFilterMessage(ftype, bh3, fb)),
+                    ("filter bytes", compactfilter.CFilterMessage(ftype, bh, fb2) if fb2 != fb else None),
+                    ("filter bytes (one more padding byte)", compactfilter.CFilterMessage(ftype, bh, fb + b"\x00"))):
+        if o is not None and (m == o or o == m or not (m != o)):
+            return f"cfilter messages that differ only in the {what} compare equal"
+    if m.cf.key != k or m.filter_bytes != fb or m.hash() != _dsha(fb) or m.cf.serialize() != fb:
+        return "comparing cfilter messages changed one of them"
+    return None
+
+
+class _Boom(Exception):
+    pass
+
+
+class BoomScript:
+    def raw_serialize(self):
+        raise _Boom()
+
+
+def p_fail_retry(key, items, bh, cut, size, fc, tweak):
+    """a call that fails leaves nothing behind: the same call with good arguments — on the same objects where there
+    are objects — gives the answer of the references afterwards"""
+    from io import BytesIO
+    C = compactfilter
+    items = list(items)
+    n = len(items)
+    fb = ref_bip158(key, items)
+    vals = ref_hashed(key, items)
+    bad = fb[:cut]
+    try:
+        ref_gcs_decode(bad)
+        truncated = False
+    except Exception:  # noqa
+        truncated = True
+    if n and not truncated:
+        return "harness: the cut does not truncate the filter"
+
+    def fails(fn):
+        return _raises(fn, Exception)
+
+    # module level: wrong key sizes, truncated streams, values that are not bytes
+    for attempt in range(2):
+        fails(lambda: C._siphash(key[:15], items[0] if items else b""))
+        fails(lambda: helper._siphash(key + b"\x00", items[0] if items else b""))
+        fails(lambda: C.hash_to_range(key[:3], b"abc", n * M))
+        fails(lambda: C.hashed_items(key, list(items) + [None]))
+        fails(lambda: C.encode_gcs(key[:15], list(items)))
+        fails(lambda: C.encode_gcs(key, list(items) + ["text"]))
+        fails(lambda: C.decode_gcs(key, bad))
+        fails(lambda: C.decode_golomb([1, 1, 1], P))
+        fails(lambda: C.decode_golomb([0, 1, 0, 1], P))
+        fails(lambda: C.serialize_gcs([5, None]))
+        fails(lambda: C.CompactFilter.parse(key, bad))
+        fails(lambda: C.CFilterMessage(0, bh, bad))
+        if C.hashed_items(key, list(items)) != vals:
+            return f"hashed_items after failing calls (attempt {attempt}) differs from the reference"
+        if C.encode_gcs(key, list(items)) != fb:
+            return f"encode_gcs after failing calls (attempt {attempt}) differs from the BIP158 construction"
+        if C.decode_gcs(key, fb) != vals:
+            return f"decode_gcs of a whole filter after a truncated one (attempt {attempt}) differs from its values"
+        if C.serialize_gcs(list(vals)) != fb:
+            return f"serialize_gcs after a failing call (attempt {attempt}) differs from the BIP158 coding"
+        for it in items[:3]:
+            if C._siphash(key, it) != ref_siphash24(key, it) or helper._siphash(key, it) != ref_siphash24(key, it):
+                return "_siphash after a call with a wrong key size differs from SipHash-2-4"
+    # objects: a query that raises, then the same objects again
+    cf = C.CompactFilter.parse(key, fb)
+    kbh = bytes(16) + key[::-1]
+    msg = C.CFilterMessage(0, kbh, fb)
+    for attempt in range(2):
+        for o in (cf, msg):
+            if not _raises(lambda: BoomScript() in o, _Boom):
+                return "an exception of raw_serialize() is swallowed by __contains__"
+            fails(lambda: RawScript(None) in o)
+            fails(lambda: RawScript("text") in o)
+            fails(lambda: o == 5)
+        good = cf.key
+        cf.key = key[:15]
+        if items and not fails(lambda: RawScript(items[0]) in cf):
+            return "a filter with a 15-byte key answers"
+        cf.key = good
+        for i, it in enumerate(items):
+            if RawScript(it) not in cf or RawScript(it) not in msg:
+                return f"false negative after failing queries (attempt {attempt}): element {i}"
+        if cf.serialize() != fb or cf.hash() != _dsha(fb) or msg.hash() != _dsha(fb) or cf.f != n * M:
+            return "serialize() / hash() / F after failing queries differ"
+    # wire parsers: a short read, then the whole message
+    wire = b"\x00" + kbh[::-1] + ref_varint(len(fb)) + fb
+    for short in (wire[: 33 + (len(wire) - 33) // 2], wire[:20], wire[:-1] if n else wire[:33]):
+        fails(lambda: C.CFilterMessage.parse(BytesIO(short)))
+        m = C.CFilterMessage.parse(BytesIO(wire))
+        if m.filter_bytes != fb or m.block_hash != kbh or any(RawScript(it) not in m for it in items):
+            return "CFilterMessage.parse of a whole message after a truncated one: fields / false negative"
+    hs = [_dsha(bytes([i]) + key) for i in range(3)]
+    hwire = b"\x00" + bh[::-1] + kbh + ref_varint(3) + b"".join(hs)
+    cur = kbh
+    for fh in hs:
+        cur = _dsha(fh + cur)
+    fails(lambda: C.CFHeadersMessage.parse(BytesIO(hwire[:40])))
+    fails(lambda: C.CFHeadersMessage(0, bh, kbh, [hs[0], None, hs[2]]))
+    short = C.CFHeadersMessage.parse(BytesIO(hwire[:-5]))       # a short last hash is what the stream gives
+    if C.CFHeadersMessage.parse(BytesIO(hwire)).last_header != cur or \
+            C.CFHeadersMessage(0, bh, kbh, list(hs)).last_header != cur:
+        return "filter header chain after a failing / short parse differs"
+    del short
+    # SipHash object: a refused update leaves the state alone
+    a, b2 = items[0] if items else b"ab", bytes(range(11))
+    o = siphash.SipHash_2_4(key, a)
+    fails(lambda: o.update(None))
+    fails(lambda: o.update("text"))
+    fails(lambda: siphash.SipHash_2_4(key[:15], a))
+    fails(lambda: siphash.SipHash_2_4(key, "text"))
+    if o.hash() != ref_siphash24(key, a) or o.update(b2).hash() != ref_siphash24(key, a + b2):
+        return "a SipHash object that refused an update gives another hash afterwards"
+    if siphash.SipHash_2_4(key).hash() != ref_siphash24(key, b""):
+        return "a fresh SipHash object after failed constructions is not in the initial state"
+    # bloom filter: refused element / refused flag, then on with the same object
+    bf = bloomfilter.BloomFilter(size, fc, tweak)
+    v = bytearray(size)
+    for k, it in enumerate(items[:4] + [b""]):
+        fails(lambda: bf.add(None))
+        fails(lambda: bf.add("text"))
+        fails(lambda: bf.add([1, 2, 3, 4, "x"]))
+        fails(lambda: bf.filterload(256))
+        fails(lambda: bf.filterload(-1))
+        fails(lambda: bf.filterload(None))
+        bf.add(it)
+        ref_core_insert(v, fc, tweak, it)
+        if bf.filter_bytes() != bytes(v):
+            return f"filter_bytes() after refused add() / filterload() calls differs from Core's vData (element {k})"
+        if bf.filterload().serialize() != ref_varint(size) + bytes(v) + struct.pack("<II", fc, tweak) + b"\x01":
+            return "filterload() after a refused filterload(256) differs from the BIP37 layout"
+    good = bf.tweak
+    bf.tweak = 2 ** 32 + tweak
+    fails(lambda: bf.filterload())
+    bf.tweak = good
+    if bf.filterload(0).serialize() != ref_varint(size) + bytes(v) + struct.pack("<II", fc, tweak) + b"\x00":
+        return "filterload(0) after a failed filterload() differs from the BIP37 layout"
+    if helper.murmur3(b"abc", 7) != ref_murmur3(b"abc", 7) or _raises(lambda: helper.murmur3(None, 7)) or \
+            helper.murmur3(b"abc") != ref_murmur3(b"abc", 0):
+        return "murmur3 after refused inputs differs"
+    return None
+
+
+def p_independent(key, key2, items, probes, size, fc, tweak):
+    """results do not share state with their sources or with each other: every object / list is edited after it was
+    handed out and the source (or a sibling made from the same input) is used again"""
+    C = compactfilter
+    CF = C.CompactFilter
+    items = list(items)
+    n = len(items)
+    f = n * M
+    fb = ref_bip158(key, items)
+    vals = ref_hashed(key, items)
+    # module functions: arguments untouched, results fresh
+    arg = list(items)
+    h1 = C.hashed_items(key, arg)
+    e1 = C.encode_gcs(key, arg)
+    if arg != items:
+        return "hashed_items / encode_gcs modified the element list of the caller"
+    h1.append(-1)
+    h1.reverse()
+    if C.hashed_items(key, arg) != vals or e1 != fb or C.encode_gcs(key, arg) != fb:
+        return "hashed_items / encode_gcs give another result after the first result was edited"
+    d1 = C.decode_gcs(key, fb)
+    d1.append(3)
+    d1[:1] = []
+    if C.decode_gcs(key, fb) != vals or C.decode_gcs(key2, fb) != vals:
+        return "decode_gcs gives another result after the list it returned before was edited"
+    u1 = C.unpack_bits(fb)
+    del u1[: len(u1) // 2]
+    u2 = C.unpack_bits(fb)
+    if len(u2) != 8 * len(fb) or C.pack_bits(list(u2)) != fb:
+        return "unpack_bits gives another result after the list it returned before was consumed"
+    g1 = C.encode_golomb(5, P)
+    g1.clear()
+    if [int(b) for b in C.encode_golomb(5, P)] != [0] + [0] * (P - 3) + [1, 0, 1]:
+        return "encode_golomb gives another result after the list it returned before was edited"
+    sv = list(vals)
+    C.serialize_gcs(sv)
+    if sv != vals:
+        return "serialize_gcs modified the value list of the caller"
+    # filters from the same bytes / the same list / each other's serialisation
+    p1, p2 = CF.parse(key, fb), CF.parse(key, fb)
+    c1, c2 = CF(key, vals), CF(key2, vals)
+    msg = C.CFilterMessage(0, bytes(16) + key[::-1], fb)
+    p3 = CF.parse(key, p1.serialize())
+    x = f + 12345
+    for victim in (p1, c1):
+        victim.hashes.add(x)
+        victim.hashes.discard(vals[0] if vals else None)
+        victim.items.append(x)
+        victim.items.reverse()
+        victim.key = key2
+        victim.f = 1
+    for name, o, k in (("a second parse of the same bytes", p2, key), ("a filter built from the same list", c2, key2),
+                       ("the filter of a cfilter message over the same bytes", msg.cf, key),
+                       ("a filter parsed from the first one's serialisation", p3, key)):
+        if o.key != k or o.f != f or sorted(o.hashes) != sorted(set(vals)) or o.serialize() != fb or o.hash() != _dsha(fb):
+            return f"{name} changed when the first filter was edited"
+        if k == key and any(RawScript(it) not in o for it in items):
+            return f"false negative on {name} after the first filter was edited"
+        for p in probes:
+            if (RawScript(p) in o) != (((ref_siphash24(k, p) * f) >> 64) in set(vals)):
+                return f"membership on {name} differs from the reference after the first filter was edited"
+    if any(RawScript(it) not in msg for it in items) or msg.hash() != _dsha(fb) or msg.filter_bytes != fb:
+        return "the cfilter message changed when a sibling filter was edited"
+    msg.cf.hashes.clear()
+    m2 = C.CFilterMessage(0, bytes(16) + key[::-1], fb)
+    if any(RawScript(it) not in m2 for it in items) or any(RawScript(it) not in p2 for it in items):
+        return "a new cfilter message over the same bytes is affected by the emptied filter of the first"
+    # repr() is an observer
+    for o in (p2, c2, m2.cf):
+        try:
+            repr(o)
+            str(o)
+        except Exception:  # noqa  (the text is not part of the property)
+            pass
+        if o.serialize() != fb or o.f != f or sorted(o.hashes) != sorted(set(vals)):
+            return "repr() of a filter changed it"
+    # header messages: parse() hands out fresh lists; repr() is an observer
+    from io import BytesIO
+    hs = [_dsha(it + key) for it in items[:5]] or [_dsha(key)]
+    prev = _dsha(key2)
+    cur = prev
+    for fh in hs:
+        cur = _dsha(fh + cur)
+    wire = b"\x00" + bytes(32) + prev + ref_varint(len(hs)) + b"".join(hs)
+    q1 = C.CFHeadersMessage.parse(BytesIO(wire))
+    q1.filter_hashes.append(b"\x00" * 32)
+    q1.filter_hashes.reverse()
+    q1.last_header = b""
+    q2 = C.CFHeadersMessage.parse(BytesIO(wire))
+    q3 = C.CFHeadersMessage(0, bytes(32), prev, list(hs))
+    for o in (q2, q3):
+        try:
+            repr(o)
+        except Exception:  # noqa
+            pass
+        if o.filter_hashes != hs or o.last_header != cur or o.previous_filter_header != prev:
+            return "a second cfheaders message is affected by edits of the first / by repr()"
+    cwire = b"\x00" + bytes(32) + ref_varint(len(hs)) + b"".join(hs)
+    k1 = C.CFCheckPointMessage.parse(BytesIO(cwire))
+    k1.filter_headers.clear()
+    k2 = C.CFCheckPointMessage.parse(BytesIO(cwire))
+    try:
+        repr(k2)
+    except Exception:  # noqa
+        pass
+    if k2.filter_headers != hs:
+        return "a second cfcheckpt message is affected by edits of the first / by repr()"
+    # bloom filters of the same shape, alive together
+    b1 = bloomfilter.BloomFilter(size, fc, tweak)
+    b2 = bloomfilter.BloomFilter(size, fc, tweak)
+    v1, v2 = bytearray(size), bytearray(size)
+    if b1.bit_field is b2.bit_field:
+        return "two bloom filters share one bit field"
+    for it in items[:3] + [b"\x01"]:
+        b1.add(it)
+        ref_core_insert(v1, fc, tweak, it)
+    if b2.filter_bytes() != bytes(size) or any(b2.bit_field):
+        return "adding to one bloom filter set bits in another of the same shape"
+    fb1 = b1.filter_bytes()
+    l1 = b1.filterload()
+    b2.add(b"\x02" + key)
+    ref_core_insert(v2, fc, tweak, b"\x02" + key)
+    b1.bit_field[0] ^= 1
+    v1x = bytearray(v1)
+    v1x[0] ^= 1
+    if fb1 != bytes(v1) or l1.serialize() != ref_varint(size) + bytes(v1) + struct.pack("<II", fc, tweak) + b"\x01":
+        return "filter_bytes() / filterload() handed out earlier changed with the filter"
+    if b1.filter_bytes() != bytes(v1x) or b2.filter_bytes() != bytes(v2):
+        return "two bloom filters of the same shape are not independent"
+    b3 = bloomfilter.BloomFilter(size, fc, tweak)
+    if b3.filter_bytes() != bytes(size):
+        return "a fresh bloom filter made after others of the same shape is not empty"
+    # SipHash objects: copies and siblings
+    m1 = items[0] if items else b"abcdefghi"
+    o = siphash.SipHash_2_4(key, m1)
+    c = o.copy()
+    s2 = siphash.SipHash_2_4(key2, m1)
+    o.update(b"0123456789")
+    if c.hash() != ref_siphash24(key, m1) or s2.hash() != ref_siphash24(key2, m1):
+        return "updating a SipHash object changed its copy / an object with another key"
+    c.update(b"xyz")
+    if o.hash() != ref_siphash24(key, m1 + b"0123456789") or c.hash() != ref_siphash24(key, m1 + b"xyz"):
+        return "a SipHash object and its copy do not diverge independently"
+    if siphash.SipHash_2_4(key).hash() != ref_siphash24(key, b"") or siphash.SipHash_2_4.s != b"" or siphash.SipHash_2_4.b != 0:
+        return "the class-level defaults of SipHash_2_4 (s, b) changed"
+    return None
+
+
+def p_real_script(key, raws, absent):
+    """membership asked with the library's own Script objects (what a wallet passes), not only with a stand-in"""
+    from io import BytesIO
+    from buidl.script import Script
+    scripts = []
+    for raw in raws:
+        sc = Script.parse(BytesIO(ref_varint(len(raw)) + raw))
+        if sc.raw_serialize() != raw:
+            return None         # not this property's business (script serialisation); the case is void
+        scripts.append(sc)
+    n = len(raws)
+    fb = ref_bip158(key, raws)
+    cf = compactfilter.CompactFilter.parse(key, fb)
+    msg = compactfilter.CFilterMessage(0, bytes(16) + key[::-1], fb)
+    direct = compactfilter.CompactFilter(key, [(ref_siphash24(key, r) * n * M) >> 64 for r in raws])
+    for i, sc in enumerate(scripts):
+        if sc not in cf or sc not in msg or sc not in direct:
+            return f"false negative for Script object {i} of {n}"
+    _n, gcs = ref_split_count(fb)
+    for raw in absent:
+        sc = Script.parse(BytesIO(ref_varint(len(raw)) + raw))
+        if sc.raw_serialize() == raw and (sc in cf) != ref_gcs_match(key, gcs, raw, n):
+            return "membership of a Script object differs from gcs_match of BIP158"
+    return None
+
+
+PROPS = {"helper_siphash": p_helper_siphash, "murmur_default": p_murmur_default, "bit_field": p_bit_field,
+         "getcf_msgs": p_getcf_msgs, "eq_discriminates": p_eq_discriminates, "fail_retry": p_fail_retry,
+         "independent": p_independent, "real_script": p_real_script,
+         "cf_match": p_cf_match, "reserialize_stable": p_reserialize_stable, "cfmsg": p_cfmsg,
          "cfheaders_parse": p_cfheaders_parse, "bloom_wire": p_bloom_wire,
          "cf_reserialize": p_cf_reserialize, "golomb_rt": p_golomb_rt, "pack_unpack": p_pack_unpack, "unpack_pack": p_unpack_pack, "gcs_rt": p_gcs_rt,
          "cf_members": p_cf_members, "siphash_vector": p_siphash_vector, "siphash_ref": p_siphash_ref,
@@ -1869,6 +2356,196 @@ def generate(ctx):
 
     # ---- third round: the public constructors called directly with arguments of unusual but valid shape
     yield from gen_constructors(ctx)
+
+    # ---- fourth round: remaining entry points, default arguments, byte classes, field coincidences, shared state
+    yield from gen_audit(ctx)
+
+
+BYTE_CLASSES = [("all-00", lambda n: bytes(n)), ("all-ff", lambda n: b"\xff" * n), ("all-80", lambda n: b"\x80" * n),
+                ("all-7f", lambda n: b"\x7f" * n), ("digits", lambda n: (b"0123456789" * 8)[:n]),
+                ("00-then-ff", lambda n: bytes(n // 2) + b"\xff" * (n - n // 2)),
+                ("ff-then-00", lambda n: b"\xff" * (n // 2) + bytes(n - n // 2))]
+
+
+def gen_audit(ctx):
+    r = ctx.rng
+    keys = [bytes(16), b"\xff" * 16, bytes(8) + b"\xff" * 8, b"\xff" * 8 + bytes(8), b"\x80" + bytes(15), bytes(15) + b"\x01",
+            b"0123456789012345"]
+
+    # (a) the copy of _siphash in helper.py; (d) messages / keys of one byte class, every length 0..70
+    for n in range(0, 71):
+        key = ctx.rbytes(16)
+        ctx.label("audit/helper-siphash")
+        yield ("prop", "helper_siphash", [key, ctx.rbytes(n)])
+        for k2, (name, mk) in enumerate(BYTE_CLASSES):
+            key = keys[(n + k2) % len(keys)]
+            msg = mk(n)
+            ctx.label("audit/byte-class/siphash/" + name)
+            yield ("prop", "helper_siphash", [key, msg])
+            cut = (n * (k2 + 1)) // (len(BYTE_CLASSES) + 1)
+            yield ("prop", "siphash_ref", [key, [msg[:cut], msg[cut:]]])
+            if k2 == n % len(BYTE_CLASSES):
+                yield ("corr", "siphash_spec", [key, msg])
+                yield ("corr", "siphash_chunks", [key, [msg[:cut], msg[cut:]]])
+    for n in (255, 256, 257, 511, 512, 513, 600):       # the length byte wraps
+        for name, mk in BYTE_CLASSES[:3]:
+            yield ("prop", "helper_siphash", [keys[n % len(keys)], mk(n)])
+    for kl in (0, 1, 8, 15, 17, 32):
+        yield ("prop", "helper_siphash", [ctx.rbytes(kl), b"abc"])
+
+    # (b) murmur3 with its default seed / keyword seed; (d) data of one byte class, every length 0..70
+    for n in range(0, 71):
+        ctx.label("audit/murmur-default-seed")
+        yield ("prop", "murmur_default", [ctx.rbytes(n), r.choice([0, 1, 2 ** 32 - 1, r.getrandbits(32)])])
+        for k2, (name, mk) in enumerate(BYTE_CLASSES):
+            seed = [0, 2 ** 32 - 1, 0xfba4c795, 2 ** 31, 1, r.getrandbits(32), 0x80000000 - 1][(n + k2) % 7]
+            ctx.label("audit/byte-class/murmur/" + name)
+            yield ("prop", "murmur_default", [mk(n), seed])
+            if k2 == n % len(BYTE_CLASSES):
+                yield ("corr", "murmur3", [mk(n), seed])
+                yield ("corr", "murmur3_spec", [mk(n), seed])
+
+    # (a) bytes_to_bit_field / bit_field_to_bytes
+    for n in list(range(0, 26)) + [64, 800]:
+        bits = bytes(r.choice([0, 1, 1, 2, 255]) for _ in range(n))
+        ctx.label("audit/bit-field")
+        yield ("prop", "bit_field", [bits, ctx.rbytes((n + 7) // 8)])
+    for raw in (b"\x00", b"\xff", b"\x01", b"\x80", b"\x01\x80", b"\xff" * 9, bytes(9)):
+        yield ("prop", "bit_field", [bytes(8 * len(raw)), raw])
+
+    # (a)(b) BIP157 request messages and their default arguments
+    for ftype, height in [(0, 0), (0, 1), (1, 2), (255, 2 ** 32 - 1), (0, 2 ** 31), (0, 256), (1, 65536), (0, 0x01020304),
+                          (r.randrange(256), r.getrandbits(32)), (r.randrange(256), r.getrandbits(20))]:
+        stop = r.choice([ctx.rbytes(32), ctx.rbytes(32), bytes(31) + b"\x01", b"\x01" + bytes(31)])
+        ctx.label("audit/getcf-requests")
+        yield ("prop", "getcf_msgs", [ftype, height, stop])
+
+    # (f)(c) == must answer False when exactly one attribute differs
+    for k in range(ctx.n(24, 300)):
+        n = [0, 1, 1, 2, 2, 3, 5, 9][k % 8]
+        key = r.choice(keys + [ctx.rbytes(16)] * 3)
+        vals = [r.randrange(0, max(1, n) * M) for _ in range(n)]
+        if n >= 2 and k % 3 == 0:
+            vals[-1] = vals[0]
+        kind = k % 6
+        other = list(vals)
+        if kind == 0 and n:
+            other[r.randrange(n)] += r.choice([1, -1, 1 << P]) if vals[0] else 1      # one value moves a little
+            other = [abs(v) for v in other]
+        elif kind == 1:
+            other = vals + [r.randrange(0, max(1, n) * M)]                            # one more value
+        elif kind == 2 and n:
+            other = vals[1:]                                                           # one value fewer
+        elif kind == 3:
+            other = [v + 1 for v in vals] or [0]                                       # all shifted
+        elif kind == 4 and n:
+            other = vals[:-1] + [vals[-1] ^ (1 << r.randrange(0, 20))]                 # one bit of the last value
+        else:
+            other = vals[::-1]                                                         # same set
+        key2 = [key, key[:15] + bytes([key[15] ^ 1]), bytes([key[0] ^ 0x80]) + key[1:], key[::-1], ctx.rbytes(16)][k % 5]
+        ctx.label("audit/eq/same-set" if set(other) == set(vals) else "audit/eq/one-attribute-differs")
+        yield ("prop", "eq_discriminates", [key, key2, vals, other, ctx.rbytes(32), r.choice([0, 0, 1, 254])])
+
+    # (c)(e) the count field and the bit stream disagree / N in a longer CompactSize form than needed / one byte class
+    for n in [0, 1, 2, 3, 5, 8, 20] + [r.randrange(1, 30) for _ in range(ctx.n(8, 150))]:
+        key = ctx.rbytes(16)
+        items = [rscript(ctx, r) for _ in range(n)]
+        fb = ref_bip158(key, items)
+        others = [rscript(ctx, r) for _ in range(3)] + [b""]
+        variants = [("count-fd", b"\xfd" + struct.pack("<H", n) + fb[1:]),
+                    ("count-fe", b"\xfe" + struct.pack("<I", n) + fb[1:]),
+                    ("count-ff", b"\xff" + struct.pack("<Q", n) + fb[1:])]
+        if n:
+            variants.append(("count-smaller", ref_varint(n - 1) + fb[1:]))
+            variants.append(("count-smaller", ref_varint(r.randrange(0, n)) + fb[1:]))
+            variants.append(("count-fd-smaller", b"\xfd" + struct.pack("<H", n // 2) + fb[1:]))
+        variants.append(("count-zero-with-stream", b"\x00" + fb[1:] + ctx.rbytes(2)))
+        for name, nc in variants:
+            ctx.label("audit/count-vs-stream/" + name)
+            yield ("corr", "decode_gcs", [nc])
+            yield ("corr", "bip158_decompress", [nc])
+            yield ("corr", "cf_parse", [key, nc])
+            yield ("corr", "bip158_match", [key, nc, items[:6] + others])
+            yield ("corr", "cf_reserialize", [key, nc])
+            try:
+                compactfilter.decode_gcs(b"", nc)
+            except Exception:  # noqa
+                ctx.label("audit/count-vs-stream/rejected")
+                continue
+            yield ("prop", "cf_match", [key, nc, items[:10] + others])
+            yield ("prop", "reserialize_stable", [key, nc])
+    for cnt in (0, 1, 2, 3, 7):
+        for fill, name in ((0, "all-00"), (0xff, "all-ff"), (0x55, "all-55"), (0x80, "all-80")):
+            for ln in (0, 1, 3, 8, 20):
+                nc = ref_varint(cnt) + bytes([fill]) * ln
+                ctx.label("audit/byte-class/stream-" + name)
+                yield ("corr", "decode_gcs", [nc])
+                yield ("corr", "bip158_decompress", [nc])
+                try:
+                    compactfilter.decode_gcs(b"", nc)
+                except Exception:  # noqa
+                    continue
+                key = ctx.rbytes(16)
+                yield ("corr", "bip158_match", [key, nc, [b"", b"a"]])
+                yield ("prop", "cf_match", [key, nc, [b"", b"a", ctx.rbytes(22)]])
+                yield ("prop", "reserialize_stable", [key, nc])
+
+    # (d) element sets of one byte class: elements that differ only in their length / in one trailing zero
+    fams = [("zeros-by-length", [bytes(k) for k in range(0, 19)]),
+            ("ff-by-length", [b"\xff" * k for k in range(0, 19)]),
+            ("empty-and-zero", [b"", b"\x00"]), ("only-empty", [b""]), ("empty-twice", [b"", b""]),
+            ("trailing-zero", [b"\x51", b"\x51\x00", b"\x51\x00\x00", b"\x00\x51", b"\x00\x00\x51"]),
+            ("block-boundary", [bytes(7), bytes(8), bytes(9), bytes(15), bytes(16), bytes(17), b"\x01" + bytes(7), bytes(7) + b"\x01"]),
+            ("digits", [(b"0123456789" * 4)[:k] for k in (1, 7, 8, 9, 22, 34)]),
+            ("long-zeros", [bytes(k) for k in (255, 256, 257, 600)])]
+    for name, items in fams:
+        for key in (keys[len(name) % len(keys)], ctx.rbytes(16)):
+            ctx.label("audit/byte-class/elements/" + name)
+            yield ("prop", "cf_members", [key, items])
+            yield ("prop", "cf_reserialize", [key, items])
+            yield ("corr", "encode_gcs", [key, items])
+            yield ("corr", "bip158_spec", [key, items])
+            yield ("corr", "cf_build_query", [key, items, items + [b"\x00" * 19, b"\x52"]])
+            yield ("prop", "cfmsg_ctor", [0, bytes(16) + key[::-1], items, [b"\x00" * 19, b"\x52", b""]])
+        size, fc = r.choice([(1, 3), (3, 5), (33, 11), (256, 50)])
+        tweak = r.choice([0, 2 ** 32 - 1, r.getrandbits(32)])
+        ctx.label("audit/byte-class/bloom-elements/" + name)
+        yield ("prop", "bloom", [size, fc, tweak, items, 1])
+        yield ("prop", "bloom_wire", [size, fc, tweak, items, 0])
+        yield ("corr", "bloom_core_wire", [size, fc, tweak, items[:8], 1, items[:8] + [b"\x00" * 19, b"\x52"]])
+    # block hashes of one byte class (the filter key is their first 16 bytes in internal order)
+    for bh in (bytes(32), b"\xff" * 32, bytes(16) + b"\xff" * 16, b"\xff" * 16 + bytes(16), bytes(range(32)),
+               bytes(range(16)) * 2, bytes(range(16)) + bytes(range(16))[::-1]):
+        items = [rscript(ctx, r) for _ in range(r.randrange(1, 7))]
+        ctx.label("audit/byte-class/block-hash")
+        yield ("prop", "cfmsg", [bh, items, b""])
+        yield ("prop", "cfmsg_ctor", [0, bh, items, [b"", rscript(ctx, r)]])
+
+    # (g) failing calls followed by a retry; results edited while their sources / siblings are used again
+    for k in range(ctx.n(14, 200)):
+        n = [1, 2, 3, 0, 5, 9, 17][k % 7]
+        key = r.choice([ctx.rbytes(16), ctx.rbytes(16), bytes(16)])
+        items = [rscript(ctx, r) for _ in range(n)]
+        if n >= 3 and k % 2:
+            items[-1] = items[0]
+        fb = ref_bip158(key, items)
+        cut = r.randrange(0, max(1, len(fb) - 1)) if n else 0
+        if n and k % 3 == 0:
+            cut = len(fb) - 1
+        size, fc = r.choice([(1, 1), (2, 50), (10, 5), (64, 7), (300, 3)])
+        tweak = r.choice([0, 99, 2 ** 32 - 1, r.getrandbits(32)])
+        ctx.label("audit/fail-then-retry")
+        yield ("prop", "fail_retry", [key, items, ctx.rbytes(32), cut, size, fc, tweak])
+        key2 = r.choice([ctx.rbytes(16), key[:15] + bytes([key[15] ^ 1])])
+        ctx.label("audit/independent-objects")
+        yield ("prop", "independent", [key, key2, items, [rscript(ctx, r) for _ in range(3)] + [b""], size, fc, tweak])
+
+    # (a) membership asked with the library's Script objects
+    std = [b"\x76\xa9\x14" + ctx.rbytes(20) + b"\x88\xac", b"\x00\x14" + ctx.rbytes(20), b"\x00\x20" + ctx.rbytes(32),
+           b"\x51\x20" + ctx.rbytes(32), b"\xa9\x14" + ctx.rbytes(20) + b"\x87", b"\x6a\x04" + ctx.rbytes(4), b"\x51"]
+    for k in range(1, len(std) + 1):
+        ctx.label("audit/script-objects")
+        yield ("prop", "real_script", [ctx.rbytes(16), std[:k], [b"\x00\x14" + ctx.rbytes(20), b"\x52"]])
 
 
 def orderings(r, vals):
